@@ -499,6 +499,36 @@ def main(run):
                         conv_ok = False
         if not conv_ok:
             run.violation("dense_to_sparse_svecs/sparse_to_dense_svecs", "dense-ne-sparse", "a pair read through the converted table is not the set the other kernel stores", case)
+        # a dense table is (vectors, [count, address]) — the address column is part of the format: the same sets stored in
+        # another block order, or read through a sub-selection / permutation of the rows of `multi`, are still the same sets,
+        # and the converter must read them through the addresses (seeded change r7-c05: converter assumed consecutive storage)
+        run.count("oracle-dense-sparse-conversion-readdressed", section="oracle")
+        npair = dmu.shape[0] * dmu.shape[1]
+        order = list(range(npair)); rng.shuffle(order)
+        p_sv = np.zeros_like(dsv); p_mu = np.array(dmu)
+        a = 0
+        for k in order:
+            i, j = divmod(k, dmu.shape[1])
+            m, adr = int(dmu[i, j, 0]), int(dmu[i, j, 1])
+            p_sv[a:a + m] = dsv[adr:adr + m]; p_mu[i, j, 1] = a; a += m
+        rows = list(range(dmu.shape[0])); rng.shuffle(rows); rows = rows[:max(1, len(rows) - 1)]
+        readdr_ok = True
+        for tag, tv, tm, rowmap in (("blocks stored in another order", p_sv, p_mu, list(range(dmu.shape[0]))),
+                                    ("rows of multi sub-selected and permuted", dsv, np.array(dmu[rows], order="C"), rows)):
+            try:
+                r_v, r_m = dense_to_sparse_svecs(tv, tm)
+            except Exception as exc:  # noqa: BLE001
+                run.violation("dense_to_sparse_svecs", "dense-ne-sparse", "a valid dense table (%s) is rejected: %r" % (tag, exc), dict(case, readdressed=tag))
+                readdr_ok = False
+                continue
+            for ii, i0 in enumerate(rowmap):
+                for j in range(dmu.shape[1]):
+                    m, adr = int(dmu[i0, j, 0]), int(dmu[i0, j, 1])
+                    if int(r_m[ii, j]) != m or not same_set(r_v[ii, j, :m], dsv[adr:adr + m], scale):
+                        readdr_ok = False
+            if not readdr_ok:
+                run.violation("dense_to_sparse_svecs", "dense-ne-sparse", "the sparse table converted from a dense table with %s holds other sets than the dense table read through its addresses" % tag, dict(case, readdressed=tag, rows=rows, block_order=order))
+                break
         # representation only (not part of the statement): addresses as running sum of multiplicities, unused sparse slots zero
         if (np.cumsum(np.r_[0, dmu[:, :, 0].ravel()[:-1]]) == dmu[:, :, 1].ravel()).all():
             run.count("observation: dense addresses are the running sum of multiplicities")
